@@ -169,7 +169,12 @@ Definition cb (st : state) : out := OCb (blob_of st).
 
 (* ---------------------------------------------------------------- sending *)
 (* _send_raw: append; piggy-back one <r/> per burst; SM callback *)
-Definition send_raw_ (st : state) (gid : Z) (o : owner) (text : list Z) (resend : bool) : state * list out :=
+(* library elements queued before stream management is enabled are not part of the acknowledged stream *)
+Definition eff_owner (st : state) (o : owner) : owner :=
+  match o with OLib => if sm_enabled st then OLib else OSm | _ => o end.
+
+Definition send_raw_ (st : state) (gid : Z) (o0 : owner) (text : list Z) (resend : bool) : state * list out :=
+  let o := eff_owner st o0 in
   let st1 := set_sq st (sq st ++ [mk_sqe gid o text 0 resend]) in
   if countable o && sm_enabled st1 && negb (r_sent st1) then
     let st2 := set_r_sent st1 true in
@@ -182,7 +187,7 @@ Definition send_lib (st : state) (o : owner) (text : list Z) : state * list out 
   if connected st then
     let g := next_gid st in
     let '(st1, outs) := send_raw_ (set_next_gid st (g + 1)) g o text false in
-    (st1, (if countable o then [OG (GSubmit g)] else []) ++ outs)
+    (st1, (if countable (eff_owner st o) then [OG (GSubmit g)] else []) ++ outs)
   else (st, []).
 
 (* xmpp_send / xmpp_send_raw_string: dropped unless connected and negotiated *)
@@ -261,7 +266,8 @@ Definition write_phase (st : state) (sched : list sitem) : state * list out * li
 
 (* ---------------------------------------------------------------- negotiation *)
 (* _stream_negotiation_success *)
-Definition neg_success (st : state) : state * list out := (set_neg_done st true, [OConnect]).
+Definition neg_success (st : state) : state * list out :=
+  if neg_done st then (st, []) else (set_neg_done st true, [OConnect]).
 
 (* _do_bind *)
 Definition do_bind (bind_text : list Z) (st : state) : state * list out :=
@@ -414,10 +420,7 @@ Inductive initem :=
 (* handler_fire_stanza, library handlers only *)
 Definition fire (bind_text : list Z) (st : state) (it : initem) : state * list out :=
   match it with
-  | IFeatures smo =>
-      if h_feat st then handle_features bind_text st smo
-      else if h_sm st && smo then handle_sm bind_text st SmOther   (* the ns filter also matches a child in that ns *)
-      else (st, [])
+  | IFeatures smo => if h_feat st then handle_features bind_text st smo else (st, [])
   | IBindResult => if h_bind st then handle_bind st else (st, [])
   | ISm e => if h_sm st then handle_sm bind_text st e else (st, [])
   | _ => (st, [])
